@@ -7,4 +7,3 @@ CONSTANTS
 SPECIFICATION FairSpec
 CHECK_DEADLOCK TRUE
 INVARIANTS TypeOK AtMostOnce BarrierOK SleepersIdle NoStarvation
-PROPERTIES Termination
